@@ -437,7 +437,7 @@ func init() {
 		ID:        "C14",
 		Level:     "exploration",
 		NeedsTerm: true,
-		Rule: "buffers (15 shapes: empty, trailing blank, partial words, quotes, escaped blanks, multi-byte) with the cursor at the end or moved back 0..len characters, candidate sets of 1-8 values returned by the harness completer (extensions of the word, unrelated values, case variants, Unicode, values with blanks; optionally described, tagged, NoSpace('/','=')), completion-ignore-case on/off, key sequences of 1-6 menu keys (Tab, Shift-Tab, arrows, C-n, C-p, C-f = incremental search of the candidates, C-@ = accept-and-menu-complete) ended by C-c, a typed character, a blank or RET; one case in three goes on with a second round on the same shell (a word typed after the first round that is an offered value or a prefix of one, then menu keys again). The word being completed is anchored at the last wait without an active menu. At every wait after a menu key: buffer == anchor[:ws] + v + anchor[c0:] for an offered v (a blank after v is accepted once the menu is closed), or unchanged; typing a character with a candidate inserted gives anchor[:ws] + v + char + anchor[c0:] (v may lose a trailing '/' or '=' the completer declared removable); C-@ keeps the accepted candidate whole; C-c in an active menu restores the anchor buffer and cursor and the call goes on. " +
+		Rule: "one case in six with autocomplete on (half of those with the cursor moved back into another word), one in five beginning with a list displayed without a selected candidate (possible-completions, or a first Tab with menu-complete-display-prefix) and 1-2 characters typed under it; buffers (15 shapes: empty, trailing blank, partial words, quotes, escaped blanks, multi-byte) with the cursor at the end or moved back 0..len characters, candidate sets of 1-8 values returned by the harness completer (extensions of the word, unrelated values, case variants, Unicode, values with blanks; optionally described, tagged, NoSpace('/','=')), completion-ignore-case on/off, key sequences of 1-6 menu keys (Tab, Shift-Tab, arrows, C-n, C-p, C-f = incremental search of the candidates, C-@ = accept-and-menu-complete) ended by C-c, a typed character, a blank or RET; one case in three goes on with a second round on the same shell (a word typed after the first round that is an offered value or a prefix of one, then menu keys again). The word being completed is anchored at the last wait without an active menu. At every wait after a menu key: buffer == anchor[:ws] + v + anchor[c0:] for an offered v (a blank after v is accepted once the menu is closed), or unchanged; typing a character with a candidate inserted gives anchor[:ws] + v + char + anchor[c0:] (v may lose a trailing '/' or '=' the completer declared removable); C-@ keeps the accepted candidate whole; C-c in an active menu restores the anchor buffer and cursor and the call goes on. " +
 			"distinct non-trivial = distinct (key, word class, candidate count class, local keymap, ignore-case, round) tuples",
 		Assumptions: []string{"word start = position after the last unescaped blank before the cursor", "no Prefix()/Suffix() modifiers on the completions", "while the candidates are searched incrementally the API exposes the search minibuffer instead of the input line: those waits are not judged, the next wait outside the minibuffer is", "Vi cases stop being judged once an unbound escape sequence has left insert mode"},
 		N: func(tier string) int {
